@@ -155,10 +155,10 @@ fn c03_private_content_application_bounded_10() {
 }
 
 #[kani::proof]
-#[kani::unwind(8)]
+#[kani::unwind(12)]
 #[kani::stub(zeroize::optimization_barrier, noop_barrier)]
-fn c03_tmp_application_bounded_5() {
-    application_body::<5, false>();
+fn c03_tmp_application_bounded_10() {
+    application_body::<10, false>();
 }
 
 #[kani::proof]
